@@ -101,6 +101,12 @@ def rule_client_side(ctx):
                                      f"by equality of the value (line {getattr(e[3], 'lineno', '?')}): values that compare equal but have different "
                                      f"types (True, 1, 1.0) get each other's literal instead of quote(escape(to_snowflake(value)))")
                         break
+                # the caller's parameter object is read, never written: a second execute with the same dict / list must bind the same values
+                wrote = [e for e in tr.path.effects if e[0] in ("setitem", "list-extend") and len(e) > 1 and e[1] is params]
+                if wrote or (isinstance(params, Dct) and any(params.items.get(k) is not v for k, v in (("a", P1), ("b", P2)))) \
+                        or (isinstance(params, Lst) and [x for x in params.items] != [P1, P2]):
+                    probs.append("the caller's parameter object is modified in place (the rendered literals are written back into it): passing "
+                                 "the same object to the next execute binds already-quoted text, quote(escape(to_snowflake(value))) is applied twice")
                 # nobody rewrites the substituted text: no re.sub/inline call above the Mod node
                 if isinstance(arg, Sym) and arg.origin and arg.origin[0] != "binop":
                     for x in _prov_nodes(arg):
